@@ -77,10 +77,10 @@ func correct(ctx context.Context, opts *CorrectOptions) (interface{}, error) {
 	if doc, ok := obj.(*schema.Object); ok {
 		// Documents are updated in place
 		if err := doc.Correct(eopts...); err != nil {
-			return nil, err
+			return nil, keyedError(err)
 		}
 		if err = doc.Validate(); err != nil {
-			return nil, err
+			return nil, keyedError(err)
 		}
 		return doc, nil
 	}
